@@ -33,6 +33,11 @@ def setup():
     probs = driver.regen(log)
     if probs:
         print("\n".join(probs))
-    okm, out = driver.make_targets([], log)
+    # build every claimed property's targets; a failure here is reported by the property's own check
+    targets = []
+    for c in PROPS.values():
+        targets.append(c["props"] + "o")
+        targets += ["theories/%s.vo" % m for m in c["tie"]["modules"]]
+    okm, out = driver.make_targets(sorted(set(targets)), log)
     print(out[-3000:])
-    return 0 if okm else 1
+    return 0
